@@ -100,16 +100,9 @@ def hsEq (a b : HS.St) : Bool :=
   decide (a.headers = b.headers) && a.set.all (b.set.contains ·) && b.set.all (a.set.contains ·)
 
 theorem hsEq_construct (c : HS.St) (hI : HS.Inv c) : hsEq (HS.construct c.headers) c = true := by
-  have hmem := (C08L.foldl_setAdd c.headers [] (by simp)).2
-  simp only [hsEq, HS.construct, decide_true, Bool.true_and, Bool.and_eq_true, List.all_eq_true,
-    List.contains_iff_mem]
-  constructor
-  · intro x hx
-    rw [hmem x] at hx
-    rcases hx with h | h
-    · cases h
-    · exact (hI.2.2 x).2 h
-  · intro x hx; rw [hmem x]; exact Or.inr ((hI.2.2 x).1 hx)
+  rw [C08L.construct_of_nodup c.headers hI.1]
+  simp only [hsEq, decide_true, Bool.true_and, Bool.and_eq_true, List.all_eq_true, List.contains_iff_mem]
+  exact ⟨fun x hx => (hI.2.2 x).2 hx, fun x hx => (hI.2.2 x).1 hx⟩
 
 /-- `parse_set_header(HeaderSet(items).to_header())` gives back `items` (as `Props.C06.parseSet_dump`,
 restated on top of Lemmas/Http.lean) -/
@@ -143,7 +136,7 @@ theorem set_roundtrip (h : HList) (name : Str) (c : HS.St) (hI : HS.Inv c) (hg :
     have : SetView.load (SetView.write h name c) name = HS.construct [] := by
       simp only [SetView.write, he, if_true, SetView.load, absent_getKey]
     rw [this]
-    simp [hsEq, HS.construct, hh, hset]
+    simp [hsEq, HS.construct, HS.updateLoop, hh, hset]
   | false =>
     have : SetView.load (SetView.write h name c) name = HS.construct c.headers := by
       simp only [SetView.write, he, Bool.false_eq_true, if_false, SetView.load,
